@@ -11,20 +11,29 @@
 //          | V:<hexname>:<cat>            variable (ids in order of appearance)
 //          | U:<hexname>:<cat>:<a0,a1,..> function with the default display
 //          | T:<hexname>:<cat>:<0|1>      terminal with the default display (1 = parametric)
-//   gene ::= <symbol index>:<param hex64|->:<row,row,...>      (row i of the genome, best = row 0)
+//   gene ::= <symbol index>:<param hex64|->:<row,row,...>[:<own row>]   (default: gene i on row i; best = {0,0})
 //   v    ::= hex64 of a double (one per variable, in order of appearance)
 // output
 //   c:<hex> cpp:<hex> mql:<hex> py:<hex> [R <value> <value> ...]
-#include <map>
-#include <memory>
+// A gene may carry a 4th field, its row: several genes (of different categories)
+// can then sit on the same row of the genome; such genomes are installed in the
+// private matrix (`#define private public`), the others go through the public
+// constructor i_mep(std::vector<gene>).
+#include <bits/stdc++.h>
 
-#include "common.h"
+#define private public
+#define protected public
+#include "kernel/vita.h"
 #include "kernel/gp/src/constant.h"
 #include "kernel/gp/src/variable.h"
 #include "kernel/gp/src/primitive/int.h"
 #include "kernel/gp/src/primitive/real.h"
 #include "kernel/gp/src/primitive/bool.h"
 #include "kernel/gp/src/primitive/string.h"
+#undef private
+#undef protected
+
+#include "common.h"
 
 using namespace vita;
 
@@ -180,10 +189,12 @@ int main()
       }
 
       std::vector<gene> gv;
+      std::vector<std::size_t> rows;
       for (const auto &gd : split_on(w[3], ';'))
       {
         const auto p(split_on(gd, ':'));
-        if (p.size() != 3) throw std::runtime_error("bad gene " + gd);
+        if (p.size() != 3 && p.size() != 4) throw std::runtime_error("bad gene " + gd);
+        rows.push_back(p.size() == 4 ? std::stoul(p[3]) : rows.size());
         symbol *s(syms.at(std::stoul(p[0])).get());
         std::vector<index_t> args;
         if (!p[2].empty())
@@ -195,7 +206,24 @@ int main()
         gv.push_back(g);
       }
 
-      const i_mep prg(gv);
+      bool plain(true);
+      for (std::size_t k(0); k < rows.size(); ++k)
+        if (rows[k] != k) plain = false;
+      i_mep prg0(plain ? gv : std::vector<gene>{gv[0]});
+      if (!plain)
+      {
+        std::size_t nrows(0), ncats(0);
+        for (std::size_t k(0); k < gv.size(); ++k)
+        {
+          nrows = std::max(nrows, rows[k] + 1);
+          ncats = std::max<std::size_t>(ncats, gv[k].sym->category() + 1);
+        }
+        matrix<gene> m(nrows, ncats);
+        for (std::size_t k(0); k < gv.size(); ++k)
+          m(rows[k], gv[k].sym->category()) = gv[k];
+        prg0.genome_ = m;
+      }
+      const i_mep &prg(prg0);
       {
         std::ostringstream o;
         o << out::c_language << prg;
